@@ -19,7 +19,7 @@ from props import coregen as G, corecheck as K, corerun as R
 PID = 'C19'
 PROFILE = dict(named_cols=0.4, partial_args=0.3, inclusion=0.25, assign=0.5, lists=0.15, records=0.15, combine=0.3,
                disjunction=0.25, filter=0.4, negation=0.3, two_rules=0.45, distinct=0.4, aggregation=0.5,
-               ifthenelse=0.3, builtins=0.2, func_calls=0.3, set_agg=0.0)
+               ifthenelse=0.3, builtins=0.2, func_calls=0.3, share_names=0.5, set_agg=0.0)
 DIAG = ('Parsing', 'RuleCompile', 'Functor', 'TypeError')
 
 
